@@ -1,8 +1,8 @@
 (* C10 — wire codec: s-expression <-> cases / observations. *)
-(* DISPATCH 1000 c10_run *)
-(* DISPATCH 1001 c10_check *)
+(* DISPATCH 1000 c10_model *)
+(* DISPATCH 1001 c10_holds *)
 From Coq Require Import List ZArith NArith Bool.
-From MV Require Import Common.Sx C10.Model C10.Spec C10.Check.
+From MV Require Import Common.Sx C10.Model C10.Spec C10.Check C10.Roots.
 Import ListNotations.
 Local Open Scope N_scope.
 
@@ -93,7 +93,7 @@ Definition model_hash (k : key) : N := (N.of_nat (length (fst k)) + snd k) mod 3
 (* ---------------------------------------------------------------- entry points *)
 (* case: (0 shape tree ops): operations on a sink tree, a final flush is appended by both sides
          (1 shape entries) : Aggregate<T> (no key), closed after the inserts *)
-Definition c10_run (x : sx) : sx :=
+Definition c10_run_seq (x : sx) : sx :=
   let w := dec_shape (sx_arg x 0) in
   match sx_tag x with
   | 0%Z =>
@@ -162,7 +162,7 @@ Fixpoint check_tree (w : wshape) (eps : list (list entry)) (s : sink) (obs : lis
   end.
 
 (* input: (case observed) *)
-Definition c10_check (x : sx) : sx :=
+Definition c10_check_seq (x : sx) : sx :=
   let case := sx_nth x 0 in
   let obs := sx_nth x 1 in
   let w := dec_shape (sx_arg case 0) in
@@ -176,4 +176,156 @@ Definition c10_check (x : sx) : sx :=
       let es := map dec_entry (sx_list (sx_arg case 1)) in
       let a := dec_agg w obs in
       of_bool (totals_exact obs && agg_okb (exact_shape w) es (snd (fst a)) && hist_okb w es (snd a))
+  end.
+
+(* ================================================================ worker / mutex cases *)
+
+(* run a schedule, skipping labels that are not enabled (the harness skips the same actions) *)
+Fixpoint wrun_skip (fixed : bool) (sh : shape) (s : wstate) (ls : list wlabel) : wstate :=
+  match ls with
+  | [] => s
+  | l :: r => match wstep fixed model_hash sh s l with
+              | Some s' => wrun_skip fixed sh s' r
+              | None => wrun_skip fixed sh s r
+              end
+  end.
+
+(* the worker alone, until it has nothing left to receive: at most fuel receives *)
+Fixpoint drain_worker (fixed : bool) (sh : shape) (timed : bool) (fuel : nat) (s : wstate) : wstate :=
+  match fuel with
+  | O => s
+  | Datatypes.S f =>
+      match wstep fixed model_hash sh s (WRecv timed) with
+      | Some s' => drain_worker fixed sh timed f s'
+      | None => s
+      end
+  end.
+
+(* client action: (0 e) send | (1) flush+await | (2) clone | (3) drop handle | (4 e) guard new
+                  | (5 g e) guard set | (6 g) guard drop (send, then its handle goes) *)
+Definition dec_action (nflush : N) (x : sx) : list wlabel :=
+  match sx_tag x with
+  | 0%Z => [HSend (dec_entry (sx_arg x 0))]
+  | 1%Z => [HFlush nflush]
+  | 2%Z => [HClone]
+  | 3%Z => [HDrop]
+  | 4%Z => [GNew (dec_entry (sx_arg x 0))]
+  | 5%Z => [GSet (sx_nat (sx_arg x 0)) (dec_entry (sx_arg x 1))]
+  | _ => [GDrop (sx_nat (sx_arg x 0))]
+  end.
+
+(* a guard drop releases the guard's handle only if the guard was alive *)
+Definition guard_alive (s : wstate) (g : nat) : bool :=
+  match nth_error (w_guards s) g with Some (Some _) => true | _ => false end.
+
+(* canonical schedule of a single client: after each client action the worker drains the channel *)
+Fixpoint run_script (fixed : bool) (sh : shape) (timed : bool) (nflush : N) (s : wstate) (script : list sx) : wstate :=
+  match script with
+  | [] => s
+  | x :: r =>
+      let ls := dec_action nflush x in
+      let extra := match ls with [GDrop g] => if guard_alive s g then [HDrop] else [] | _ => [] end in
+      let s1 := wrun_skip fixed sh s (ls ++ extra) in
+      let s2 := drain_worker fixed sh timed (Datatypes.S (length (w_chan s1))) s1 in
+      run_script fixed sh timed (match ls with [HFlush _] => nflush + 1 | _ => nflush end) s2 r
+  end.
+
+(* end of a case: remaining guards are dropped in order, then every handle; the worker drains and sees
+   the disconnect *)
+Fixpoint drop_guards (fixed : bool) (sh : shape) (timed : bool) (n : nat) (g : nat) (s : wstate) : wstate :=
+  match n with
+  | O => s
+  | Datatypes.S n' =>
+      let s1 := if guard_alive s g then wrun_skip fixed sh s [GDrop g; HDrop] else s in
+      drop_guards fixed sh timed n' (Datatypes.S g) (drain_worker fixed sh timed (Datatypes.S (length (w_chan s1))) s1)
+  end.
+Definition finish_worker (fixed : bool) (sh : shape) (timed : bool) (s : wstate) : wstate :=
+  let s1 := drop_guards fixed sh timed (length (w_guards s)) 0 s in
+  let s2 := wrun_skip fixed sh s1 (repeat HDrop (w_senders s1)) in
+  let s3 := drain_worker fixed sh timed (Datatypes.S (length (w_chan s2))) s2 in
+  wrun_skip fixed sh s3 [WDisc].
+
+Definition nonempty_batch (x : sx) : bool := match x with L [] => false | _ => true end.
+Definition drop_empty_batches (leaf : sx) : sx :=
+  match sx_tag leaf with
+  | 0%Z => tagged 0 (filter nonempty_batch (sx_args leaf))
+  | _ => leaf
+  end.
+
+(* case: (3 shape tree mode script); mode 0: interval never elapses, 1: interval zero (every entry is
+   flushed at once; empty batches are not compared, their number depends on wall-clock timeouts) *)
+Definition c10_worker_det (x : sx) : sx :=
+  let w := dec_shape (sx_arg x 0) in
+  let t := dec_tree 64 (sx_arg x 1) in
+  let timed := sx_bool (sx_arg x 2) in
+  let s := run_script true (w_sh w) timed 0 (w_init t) (sx_list (sx_arg x 3)) in
+  let s' := finish_worker true (w_sh w) timed s in
+  let leaves := enc_tree w (w_inner s') in
+  L [L (if timed then map drop_empty_batches leaves else leaves);
+     of_nat (length (w_acks s')); of_bool (w_exited s')].
+
+(* ---------------------------------------------------------------- the promise for a single client *)
+(* What the client of a worker sink is promised, read off its own script (no channel, no thread): the
+   history is its sends in program order, a guard contributing its value at the time it is dropped, with a
+   flush wherever it awaited one and a final flush when the last handle is gone.  With a zero interval
+   every merge is flushed at once. *)
+Fixpoint script_ops (timed : bool) (gs : list (option entry)) (handles : nat) (script : list sx) : list op * (list (option entry) * nat) :=
+  match script with
+  | [] => ([], (gs, handles))
+  | x :: r =>
+      let emit (e : entry) := if timed then [OMerge e; OFlush] else [OMerge e] in
+      let '(now, gs', handles') :=
+        match sx_tag x with
+        | 0%Z => (if Nat.ltb 0 handles then emit (dec_entry (sx_arg x 0)) else [], gs, handles)
+        | 1%Z => (if Nat.ltb 0 handles then [OFlush] else [], gs, handles)
+        | 2%Z => ([], gs, if Nat.ltb 0 handles then Datatypes.S handles else handles)
+        | 3%Z => ([], gs, Nat.pred handles)
+        | 4%Z => if Nat.ltb 0 handles then ([], gs ++ [Some (dec_entry (sx_arg x 0))], Datatypes.S handles) else ([], gs, handles)
+        | 5%Z => let g := sx_nat (sx_arg x 0) in
+                 match nth_error gs g with
+                 | Some (Some _) => ([], set_nth gs g (Some (dec_entry (sx_arg x 1))), handles)
+                 | _ => ([], gs, handles)
+                 end
+        | _ => let g := sx_nat (sx_arg x 0) in
+               match nth_error gs g with
+               | Some (Some v) => if Nat.ltb 0 handles then (emit v, set_nth gs g None, Nat.pred handles) else ([], gs, handles)
+               | _ => ([], gs, handles)
+               end
+        end in
+      let rest := script_ops timed gs' handles' r in
+      (now ++ fst rest, snd rest)
+  end.
+
+Definition remaining_guard_ops (timed : bool) (gs : list (option entry)) : list op :=
+  flat_map (fun g => match g with Some v => if timed then [OMerge v; OFlush] else [OMerge v] | None => [] end) gs.
+
+Definition count_flush_reqs (script : list sx) : nat :=
+  length (filter (fun x => Z.eqb (sx_tag x) 1) script).
+
+Definition nonempty_epoch (ep : list entry) : bool := match ep with [] => false | _ => true end.
+
+Definition c10_check_worker_det (case obs : sx) : bool :=
+  let w := dec_shape (sx_arg case 0) in
+  let t := dec_tree 64 (sx_arg case 1) in
+  let timed := sx_bool (sx_arg case 2) in
+  let script := sx_list (sx_arg case 3) in
+  let r := script_ops timed [] 1 script in
+  let ops := fst r ++ remaining_guard_ops timed (fst (snd r)) ++ [OFlush] in
+  let eps := complete_epochs ops in
+  let eps' := if timed then filter nonempty_epoch eps else eps in
+  let rt := check_tree w eps' t (sx_list (sx_nth obs 0)) in
+  fst rt && (match snd rt with [] => true | _ => false end) &&
+  Nat.eqb (sx_nat (sx_nth obs 1)) (count_flush_reqs script) &&
+  sx_bool (sx_nth obs 2).
+
+Definition c10_model (x : sx) : sx :=
+  match sx_tag x with
+  | 3%Z => c10_worker_det x
+  | _ => c10_run_seq x
+  end.
+
+Definition c10_holds (x : sx) : sx :=
+  match sx_tag (sx_nth x 0) with
+  | 3%Z => of_bool (c10_check_worker_det (sx_nth x 0) (sx_nth x 1))
+  | _ => c10_check_seq x
   end.
